@@ -96,7 +96,7 @@ func (ex *Exec) harnessPrim(st *State, fn *ssa.Function, args []Value, in *ssa.C
 		r, _ := ex.solver.Check(st.pc, Not(c), nil)
 		switch r {
 		case "unsat":
-			if as.Checked <= 2 && len(ex.vcs) < 40 {
+			if as.Checked <= 1 && len(ex.vcs) < 16 {
 				ex.vcs = append(ex.vcs, vcRec{Standalone(st.pc, Not(c)), "unsat", "assert: " + msg})
 			}
 			return true
